@@ -45,6 +45,9 @@ GStep ==
           /\ hist' = Append(hist, [op |-> "add_export", name |-> "x" \o ToString(nedits), kind |-> sp, target |-> id])
      \/ \E b \in Bodies(st) : Sorted(b) /\ st' = AddFunc(st, "()->()", b) /\ hist' = Append(hist, [op |-> "add_func", sig |-> "()->()", refs |-> b])
      \/ st' = AddImportFunc(st, "n" \o ToString(nedits), "()->()") /\ hist' = Append(hist, [op |-> "add_import_func", field |-> "n" \o ToString(nedits), sig |-> "()->()"])
+     \/ \E ety \in {"funcref", "externref"} : st' = AddImportTable(st, "t" \o ToString(nedits), ety) /\ hist' = Append(hist, [op |-> "add_import_table", field |-> "t" \o ToString(nedits), ety |-> ety])
+     \/ st' = AddImportMemory(st, "m" \o ToString(nedits)) /\ hist' = Append(hist, [op |-> "add_import_memory", field |-> "m" \o ToString(nedits)])
+     \/ st' = AddImportGlobal(st, "g" \o ToString(nedits)) /\ hist' = Append(hist, [op |-> "add_import_global", field |-> "g" \o ToString(nedits)])
      \/ st' = AddGlobal(st, TRUE, 7) /\ hist' = Append(hist, [op |-> "add_global", mutable |-> TRUE, value |-> 7])
      \/ st' = AddMemory(st, 1) /\ hist' = Append(hist, [op |-> "add_memory", pages |-> 1])
      \/ st' = AddTable(st, 1) /\ hist' = Append(hist, [op |-> "add_table", min |-> 1])
